@@ -140,3 +140,16 @@ Example parse_version_prerelease_rejected :
   parse_version "18446744073709551615.0.0" = Some (U64_MAX, 0, 0) /\
   parse_version "18446744073709551616.0.0" = None.
 Proof. repeat split; vm_compute; reflexivity. Qed.
+
+(* `<=` on versions (the comparison `version > new_version` of every migrate negated) is a
+   total order *)
+Lemma ver_leb_total_order : forall a b c,
+  ver_leb a a = true /\
+  (ver_leb a b = true -> ver_leb b c = true -> ver_leb a c = true) /\
+  (ver_leb a b = true -> ver_leb b a = true -> a = b) /\
+  (ver_leb a b = true \/ ver_leb b a = true).
+Proof.
+  intros [[a1 a2] a3] [[b1 b2] b3] [[c1 c2] c3]. unfold ver_leb, ver_ltb, ver_eqb.
+  repeat split; try lia.
+  intros H1 H2. assert (a1 = b1 /\ a2 = b2 /\ a3 = b3) as [-> [-> ->]] by lia. reflexivity.
+Qed.
